@@ -189,7 +189,9 @@ def qualifyTemplate (imports : List (String × String)) (tpl : String) : String 
         let path := String.ofList (takeWhileL (· != '\x02') rest)
         let after := (dropWhileL (· != '\x02') rest).drop 1
         match (imports.find? (·.1 == path)).map (·.2) with
-        | some n => n.toList ++ go fuel after            -- keeps the dot that follows
+        | some n =>
+          if n == "." then go fuel (match after with | '.' :: r => r | r => r)   -- dot import: no qualifier
+          else n.toList ++ go fuel after            -- keeps the dot that follows
         | none => go fuel (match after with | '.' :: r => r | r => r)
       | c :: rest => c :: go fuel rest
   String.ofList (go (tpl.length + 1) tpl.toList)
@@ -209,7 +211,7 @@ def typeName : Nat → TyId → String
       | none => (env.ty t).name
       | some p =>
         match env.importName p with
-        | some n => n ++ "." ++ (env.ty t).name
+        | some n => if n == "." then (env.ty t).name else n ++ "." ++ (env.ty t).name   -- dot import: bare name
         | none => (env.ty t).name
     | _ => qualifyTemplate env.imports (env.ty t).qstr
 
